@@ -3,7 +3,11 @@
 Correspondence: the real SyncFIFO / SyncFIFOBuffered (width, depth) run in the real simulator with a hand-driven
 clock; every cycle all outputs are recorded and compared with the trace of Model/Fifo.v computed in Coq.
 Independently of Coq, the same trace is checked against a collections.deque monitor (implementation-level oracle);
-its verdict is the last integer of the observation (0 = no complaint) and the model answers 0 there.
+its verdict follows the trace in the observation (0 = no complaint) and the model answers 0 there.
+For cases marked "st" the internal registers and memory rows of the elaborated design (produce, consume, level /
+inner_level, r_rdy and read-port data registers, storage rows) are read after the last cycle and compared with the
+model's state.  The "bfs" cases are the edges of a breadth-first exploration of the IMPLEMENTATION's state graph
+(state = those internals) run to closure for small parameters: one case per (reachable state, input letter).
 """
 import collections, itertools, random
 from common import z, zlist, blit
@@ -12,7 +16,7 @@ ID = "C12"
 LEVEL = "proof"
 PROPS_FILE = "C12.v"
 RUN_MODULE = "RunC12"
-TRANSLATOR_UNITS = []
+TRANSLATOR_UNITS = ["fifo"]
 RULE = ("exhaustive: every strobe/data word (w_en, r_en, w_data; w_data fixed to 0 when w_en=0) for depth in {0,1,2,3}, "
         "both FIFOs: width 0 words of length 5 (6 for depth 3; thorough 7), width 1 words of length 4 (thorough 6), depth 0 "
         "length 3 (a word covers all its prefixes because every cycle is compared); 4 seeded random walks of 300 (thorough "
@@ -21,13 +25,19 @@ RULE = ("exhaustive: every strobe/data word (w_en, r_en, w_data; w_data fixed to
         "and a complete drain, then random phases fill/drain/mixed/stream/idle whose lengths scale with the depth, data random, counting, or wider than the port; constructor arguments (negative "
         "width/depth) compared on acceptance. Per cycle compared: w_rdy, r_rdy, r_data (masked while r_rdy=0), level, "
         "w_level, r_level (packed, several cycles per integer), plus the deque monitor verdict. non-trivial = some entry became readable (r_rdy seen); "
-        "distinct by case hash; full/empty/wrap-around visit counts are in the evidence (walk_visits)")
+        "distinct by case hash; full/empty/wrap-around visit counts are in the evidence (walk_visits). "
+        "Audit follow-up: (a) bfs = breadth-first exploration of the implementation's own state graph to closure (internal "
+        "registers + memory rows read from the elaborated design), letters = all strobe/data letters + 2 reset letters, for "
+        "depth 1..3 x width 0..1 x both FIFOs (thorough also (4,1), (5,0), (3,2)); every edge is a case whose trace AND final "
+        "internal state are compared with the model; (b) the last walk of every configuration asserts the domain reset in "
+        "~2% of the cycles and every walk compares the final internal state; (c) big = wide/deep configurations "
+        "(width up to 64, depth up to 100, unpacked encoding); (d) non-integer constructor arguments")
 MODELLED = ("SyncFIFO.elaborate, SyncFIFOBuffered.elaborate and _incr (amaranth/lib/fifo.py) are modelled by hand in "
             "coq/Model/Fifo.v as one-cycle step functions with explicit register widths; lib.memory.Memory with one write "
             "port and one comb / one non-transparent sync read port is modelled as a list of rows with the simulator's "
             "out-of-range behaviour; the elaboration to a netlist, the simulator's scheduling (delta cycles, comb settle) "
             "and FIFOInterface signal plumbing are validated only, by the per-cycle differential run")
-ASSUMPTIONS = ["single clock domain, reset never asserted after time 0, inputs change only between active edges "
+ASSUMPTIONS = ["single clock domain with a synchronous reset, inputs (incl. rst) change only between active edges "
                "(the testbench sets strobes, samples outputs, then pulses the clock)"]
 SHARD = 500
 
@@ -89,7 +99,18 @@ def _words(w, L):
     return itertools.product(letters, repeat=L)
 
 
+BIG = [(16, 32), (32, 33), (64, 5), (13, 64), (1, 100), (24, 31)]      # (width, depth): beyond the packed encoding
+_CACHE = {}
+
+
 def gen_cases(tier, seed):
+    key = (tier, seed)
+    if key not in _CACHE:
+        _CACHE[key] = _gen_cases(tier, seed)
+    return [dict(c) for c in _CACHE[key][0]]
+
+
+def _gen_cases(tier, seed):
     rng = random.Random(seed)
     thorough = tier == "thorough"
     small = []
@@ -108,14 +129,39 @@ def gen_cases(tier, seed):
         for w in (-2, -1, 0, 1, 3):
             for d in (-3, -1, 0, 1, 2):
                 small.append({"k": "ctor", "g": "ctor", "kind": k, "w": w, "d": d})
+        for bad in ("str", "float", "none", "list"):
+            small.append({"k": "ctor", "g": "ctor", "kind": k, "w": bad, "d": 2})
+            small.append({"k": "ctor", "g": "ctor", "kind": k, "w": 3, "d": bad})
+    # breadth-first exploration of the implementation's state graph (internal registers observed)
+    bfs_cfg = [(k, w, d) for k in KINDS for d in (1, 2, 3) for w in (0, 1)]
+    if thorough:
+        bfs_cfg += [(k, w, d) for k in KINDS for (w, d) in ((1, 4), (0, 5), (2, 3))]
+    bfs_stats = {}
+    for (k, w, d), (words, stats) in zip(bfs_cfg, _bfs_all(bfs_cfg)):
+        bfs_stats[f"{k}:w{w}:d{d}"] = stats
+        for xs, rs in words:
+            c = {"k": k, "g": "bfs", "w": w, "d": d, "xs": xs, "st": 1}
+            if rs:
+                c["rs"] = rs
+            small.append(c)
     walks = []
     n = 3000 if thorough else 300
     reps = 4
     for k in KINDS:
         for d in DEPTHS:
             for w in WIDTHS:
-                for _ in range(reps):
-                    walks.append({"k": k, "g": "walk", "w": w, "d": d, "xs": _walk(rng, w, d, n)})
+                for rep in range(reps):
+                    c = {"k": k, "g": "walk", "w": w, "d": d, "xs": _walk(rng, w, d, n), "st": 1}
+                    if rep == reps - 1:                 # the domain's reset in ~2 % of the cycles after the forced prefix
+                        rs = [t for t in range(3 * d + 6, n) if rng.random() < 0.02]
+                        if rs:
+                            c["rs"] = rs
+                    walks.append(c)
+        for (w, d) in BIG:
+            nb = max(300, 3 * d + 40)
+            c = {"k": k, "g": "big", "w": w, "d": d, "xs": _walk(rng, w, d, nb), "st": 1, "raw": 1}
+            c["rs"] = [nb - 25]
+            walks.append(c)
     # spread the long cases evenly over the shards
     cases = []
     step = max(1, len(small) // max(1, len(walks)))
@@ -126,38 +172,143 @@ def gen_cases(tier, seed):
             wi += 1
         cases.append(c)
     cases += walks[wi:]
-    return cases
+    return cases, bfs_stats
+
+
+# ------------------------------------------------------------------------------------------ state-graph exploration
+BFS_CAP = 6000          # states; a graph that does not close below the cap is reported (evidence key bfs, closed=false)
+
+
+def _bfs_letters(w):
+    """(x, rst): every strobe/data letter without reset + reset alone + reset in the cycle of a write and a read"""
+    letters = [(_pack(0, 0, 0), 0), (_pack(0, 0, 1), 0)]
+    for wd in range(1 << w):
+        letters += [(_pack(1, wd, 0), 0), (_pack(1, wd, 1), 0)]
+    letters += [(_pack(0, 0, 0), 1), (_pack(1, (1 << w) - 1, 1), 1)]
+    return letters
+
+
+def _bfs_config(cfg):
+    """Explore the real implementation: state = internal registers + rows after a word from reset.
+    Returns (list of (xs, rs) = one word per edge of the graph, statistics)."""
+    import common as C
+    C.setup_env()
+    k, w, d = cfg
+    letters = _bfs_letters(w)
+    try:
+        s0 = tuple(_simulate(k, w, d, [], [])[1])
+        seen = {s0: ((), ())}
+        queue = collections.deque([s0])
+        edges = []
+        closed = True
+        depth = 0
+        while queue:
+            s = queue.popleft()
+            xs, rs = seen[s]
+            for (x, r) in letters:
+                xs2 = xs + (x,)
+                rs2 = rs + ((len(xs),) if r else ())
+                s2 = tuple(_simulate(k, w, d, list(xs2), list(rs2))[1])
+                edges.append((list(xs2), list(rs2)))
+                if s2 not in seen:
+                    if len(seen) >= BFS_CAP:
+                        closed = False
+                        continue
+                    seen[s2] = (xs2, rs2)
+                    depth = max(depth, len(xs2))
+                    queue.append(s2)
+        return edges, {"states": len(seen), "edges": len(edges), "letters": len(letters), "longest_word": depth,
+                       "closed": closed}
+    except Exception as e:
+        return [], {"states": 0, "edges": 0, "closed": False, "error": f"{type(e).__name__}: {e}"}
+
+
+def _bfs_all(cfgs):
+    from concurrent.futures import ProcessPoolExecutor
+    import common as C
+    with ProcessPoolExecutor(min(C.NCPU, max(1, len(cfgs)))) as ex:
+        return list(ex.map(_bfs_config, cfgs))
 
 
 # ------------------------------------------------------------------------------------------ implementation
-def _simulate(kind, w, d, xs):
-    from amaranth.hdl import Module, ClockDomain
+class _Probe:
+    """wraps the FIFO so that the Module its elaborate() returns (with the internal signals) can be inspected"""
+    def __init__(self, dut):
+        self.dut = dut
+        self.m = None
+
+    def elaborate(self, platform):
+        self.m = self.dut.elaborate(platform)
+        return self.m
+
+
+def _internals(kind, d, dut, m):
+    """signals / memory of the elaborated design that make up its state, in the order of RunC12.enc_core / enc_bstate"""
+    if d == 0:
+        return [], None
+    sigs = {}
+    for stmts in m._statements.values():
+        for st in stmts:
+            for sg in st._lhs_signals():
+                sigs.setdefault(sg.name, sg)
+    if kind == "buf" and d == 1:
+        return [dut.level, dut.r_data], None
+    mem = m._named_submodules["storage"][0]
+    if kind == "sync":
+        return [sigs["produce"], sigs["consume"], dut.level], mem
+    (rp,) = mem.read_ports
+    return [sigs["produce"], sigs["consume"], sigs["inner_level"], dut.r_rdy, rp.data], mem
+
+
+def _simulate(kind, w, d, xs, rs=()):
+    """-> (trace of outputs per cycle, internal state after the last cycle)"""
+    from amaranth.hdl import Module, ClockDomain, Elaboratable
     from amaranth.lib.fifo import SyncFIFO, SyncFIFOBuffered
     from amaranth.sim import Simulator
+
+    class Probe(_Probe, Elaboratable):
+        pass
+
     dut = (SyncFIFO if kind == "sync" else SyncFIFOBuffered)(width=w, depth=d)
+    probe = Probe(dut)
     m = Module()
     m.domains.sync = cd = ClockDomain("sync")
-    m.submodules.dut = dut
+    m.submodules.dut = probe
     trace = []
+    state = []
+    rset = set(rs)
+    sim = Simulator(m)
+    try:
+        regs, mem = _internals(kind, d, dut, probe.m)
+    except Exception:
+        regs, mem = None, None              # internals not found: reported as state [-7] (a mismatch, not a crash)
 
     async def tb(ctx):
-        for x in xs:
+        for t, x in enumerate(xs):
             we, wd, re = _unpack(x)
             ctx.set(dut.w_en, we)
             ctx.set(dut.w_data, wd)
             ctx.set(dut.r_en, re)
+            ctx.set(cd.rst, int(t in rset))
             trace.append((ctx.get(dut.w_rdy), ctx.get(dut.r_rdy), ctx.get(dut.r_data),
                           ctx.get(dut.level), ctx.get(dut.w_level), ctx.get(dut.r_level)))
             ctx.set(cd.clk, 1)
             ctx.set(cd.clk, 0)
+        if regs is None:
+            state.append(-7)
+            return
+        for sg in regs:
+            state.append(ctx.get(sg))
+        if mem is not None:
+            for i in range(mem.depth):
+                state.append(ctx.get(mem.data[i]))
 
-    sim = Simulator(m)
     sim.add_testbench(tb)
     sim.run()
-    return trace
+    return trace, state
 
 
-def _monitor(kind, w, d, xs, trace):
+def _monitor(kind, w, d, xs, trace, rs=()):
     """collections.deque reference queue driven by the implementation's own handshakes.
     Returns (verdict, stats); verdict 0 = ok, else 1 + 16 * cycle + clause."""
     q = collections.deque()
@@ -166,6 +317,7 @@ def _monitor(kind, w, d, xs, trace):
     st = collections.Counter()
     waiting = False            # previous cycle: an entry was held but r_rdy was low
     ring = d if kind == "sync" else d - 1
+    rset = set(rs)
     for t, (x, o) in enumerate(zip(xs, trace)):
         we, wd, re = _unpack(x)
         w_rdy, r_rdy, r_data, level, w_level, r_level = o
@@ -207,29 +359,46 @@ def _monitor(kind, w, d, xs, trace):
                 q.popleft()
             st["reads"] += 1
         st["max_level"] = max(st["max_level"], n)
+        if t in rset:                   # synchronous reset at this edge: everything held is dropped
+            st["resets"] += 1
+            st["resets_nonempty"] += bool(q)
+            q.clear()
+            waiting = False
     st["wraps"] = st["reads"] // ring if ring > 0 else 0
     return verdict, st
+
+
+_NONINT = {"str": "8", "float": 2.0, "none": None, "list": [4]}
 
 
 def run_impl(c):
     if c["k"] == "ctor":
         from amaranth.lib.fifo import SyncFIFO, SyncFIFOBuffered
         try:
-            (SyncFIFO, SyncFIFOBuffered)[c["kind"]](width=c["w"], depth=c["d"])
+            (SyncFIFO, SyncFIFOBuffered)[c["kind"]](width=_NONINT.get(c["w"], c["w"]) if isinstance(c["w"], str) else c["w"],
+                                                   depth=_NONINT.get(c["d"], c["d"]) if isinstance(c["d"], str) else c["d"])
             return [1]
         except Exception as e:
             if type(e).__name__ == "TypeError":
                 return [0]
             return [-1, sum(map(ord, type(e).__name__))]
+    rs = c.get("rs", ())
     try:
-        trace = _simulate(c["k"], c["w"], c["d"], c["xs"])
+        trace, state = _simulate(c["k"], c["w"], c["d"], c["xs"], rs)
     except Exception as e:
         return [-1, sum(map(ord, type(e).__name__))]
-    verdict, st = _monitor(c["k"], c["w"], c["d"], c["xs"], trace)
+    verdict, st = _monitor(c["k"], c["w"], c["d"], c["xs"], trace, rs)
     if c.get("stats"):
         return [st[k] for k in STAT_KEYS]
     w = c["w"]
-    return _chunks([_pack_out(o, w) for o in trace], w + 7, _per_chunk(w)) + [verdict]
+    if c.get("raw"):
+        out = []
+        for (w_rdy, r_rdy, r_data, level, w_level, r_level) in trace:
+            assert max(level, w_level, r_level) < 4096
+            out += [w_rdy + 2 * r_rdy + 4 * (level + 4096 * (w_level + 4096 * r_level)), r_data if r_rdy else 0]
+        return out + [verdict] + state
+    out = _chunks([_pack_out(o, w) for o in trace], w + 7, _per_chunk(w)) + [verdict]
+    return out + state if c.get("st") else out
 
 
 def _per_chunk(w):
@@ -272,18 +441,29 @@ def _unchunks(chunks, bits, k, n):
 
 
 STAT_KEYS = ["cycles", "full", "empty", "wraps", "writes", "reads", "simultaneous", "w_refused", "r_refused",
-             "held_not_ready", "free_not_w_rdy", "max_level"]
+             "held_not_ready", "free_not_w_rdy", "resets", "resets_nonempty", "max_level"]
 
 
 # ------------------------------------------------------------------------------------------ model side
+def _stim(c):
+    """per cycle: w_en + 2*r_en + 4*rst + 8*w_data (the case keeps xs = w_en + 2*r_en + 4*w_data and rs = reset cycles)"""
+    rset = set(c.get("rs", ()))
+    return [(x & 3) + 4 * int(t in rset) + 8 * (x >> 2) for t, x in enumerate(c["xs"])]
+
+
 def coq_term(c):
     if c["k"] == "ctor":
+        if isinstance(c["w"], str) or isinstance(c["d"], str):
+            return f"k_ctor_nonint {z(0 if isinstance(c['w'], str) else c['w'])} {z(0 if isinstance(c['d'], str) else c['d'])}"
         return f"k_ctor {z(c['w'])} {z(c['d'])}"
     w, d, n = c["w"], c["d"], len(c["xs"])
+    if c.get("raw"):
+        fn = "k_sync_raw" if c["k"] == "sync" else "k_buf_raw"
+        return f"{fn} {w} {d} {zlist(_stim(c))}"
     assert 0 <= w < 16 and 0 <= d < 32 and all(0 <= x < (1 << (w + 5)) for x in c["xs"])
     cfg = w + 16 * (d + 256 * n)
-    fn = "k_sync" if c["k"] == "sync" else "k_buf"
-    return f"{fn} {cfg} {zlist(_chunks(c['xs'], w + 5, _per_chunk(w)))}"
+    fn = ("k_sync" if c["k"] == "sync" else "k_buf") + ("_st" if c.get("st") else "")
+    return f"{fn} {cfg} {zlist(_chunks(_stim(c), w + 6, _per_chunk(w)))}"
 
 
 def classify(c):
@@ -294,36 +474,62 @@ def classify(c):
 
 def nontrivial(c, obs):
     if c["k"] == "ctor":
-        return c["w"] < 0 or c["d"] < 0
+        return c["w"] != 0 or c["d"] != 0
+    if obs and obs[0] == -1:
+        return False
     return any(o["r_rdy"] for o in decode(c, obs)[0])
 
 
 def decode(c, ans):
-    """per-cycle outputs and monitor verdict from an (observed or model) answer"""
-    w = c["w"]
-    return [_unpack_out(v, w) for v in _unchunks(ans[:-1], w + 7, _per_chunk(w), len(c["xs"]))], ans[-1]
+    """(per-cycle outputs, monitor verdict, internal state or None) from an observed or model answer"""
+    w, n = c["w"], len(c["xs"])
+    if c.get("raw"):
+        outs = []
+        for i in range(n):
+            v, rd = ans[2 * i], ans[2 * i + 1]
+            outs.append({"w_rdy": v & 1, "r_rdy": (v >> 1) & 1, "r_data": rd, "level": (v >> 2) & 4095,
+                         "w_level": (v >> 14) & 4095, "r_level": v >> 26})
+        return outs, ans[2 * n], ans[2 * n + 1:]
+    k = _per_chunk(w)
+    nch = (n + k - 1) // k
+    outs = [_unpack_out(v, w) for v in _unchunks(ans[:nch], w + 7, k, n)]
+    return outs, ans[nch], (ans[nch + 1:] if c.get("st") else None)
 
 
 def explain(c):
     if c["k"] == "ctor":
         return "answer: [1] accepted / [0] TypeError"
-    return ("stimulus xs: one integer per cycle = w_en + 2*r_en + 4*w_data; answer: per cycle the code "
+    st = ("; then the internal state after the last cycle: SyncFIFO produce, consume, level, rows; SyncFIFOBuffered "
+          "produce, consume, inner_level, r_rdy, read-port data, rows (depth 1: level, r_data)") if c.get("st") else ""
+    if c.get("raw"):
+        return ("stimulus xs: one integer per cycle = w_en + 2*r_en + 4*w_data, rs = cycles with the domain reset asserted; "
+                "answer: per cycle [w_rdy + 2*r_rdy + 4*(level + 4096*(w_level + 4096*r_level)), r_data (0 while r_rdy=0)], "
+                "then the deque-monitor verdict (0 = ok, else 1+16*cycle+clause)" + st)
+    return ("stimulus xs: one integer per cycle = w_en + 2*r_en + 4*w_data, rs = cycles with the domain reset asserted; "
+            "answer: per cycle the code "
             "w_rdy + 2*r_rdy + 4*(level + 32*(r_data + 2^w*(dw + 256*dr))) (r_data taken as 0 while r_rdy=0; dw, dr = "
             f"w_level, r_level minus level mod 256), {_per_chunk(c['w'])} cycles per integer in little-endian digits of "
-            f"{c['w'] + 7} bits, then the deque-monitor verdict (0 = ok, else 1+16*cycle+clause); "
-            "props.c12.decode(case, answer) gives it cycle by cycle; in the Coq term cfg = w + 16*(d + 256*cycles)")
+            f"{c['w'] + 7} bits, then the deque-monitor verdict (0 = ok, else 1+16*cycle+clause){st}; "
+            "props.c12.decode(case, answer) gives it cycle by cycle; in the Coq term cfg = w + 16*(d + 256*cycles) and the "
+            "stimulus digit is w_en + 2*r_en + 4*rst + 8*w_data")
 
 
 def shrink(c, obs, model):
-    if c["k"] == "ctor" or len(obs) != len(model) or obs[:-1] == model[:-1]:
-        return c, obs, model                      # only the monitor verdict differs: keep the whole run
+    if c["k"] == "ctor" or c.get("raw") or len(obs) != len(model) or (obs and obs[0] == -1):
+        return c, obs, model
     w = c["w"]
     o, m = decode(c, obs)[0], decode(c, model)[0]
-    cycles = next(i for i, (a, b) in enumerate(zip(o, m)) if a != b) + 1
+    k = next((i for i, (a, b) in enumerate(zip(o, m)) if a != b), None)
+    if k is None:
+        return c, obs, model                      # only the monitor verdict / final state differs: keep the whole run
+    cycles = k + 1
     c2 = dict(c, xs=c["xs"][:cycles])
+    c2.pop("st", None)
+    if "rs" in c2:
+        c2["rs"] = [t for t in c2["rs"] if t < cycles]
     obs2 = run_impl(c2)
-    mvals = _unchunks(model[:-1], w + 7, _per_chunk(w), len(c["xs"]))
-    model2 = _chunks(mvals[:cycles], w + 7, _per_chunk(w)) + [0]
+    model2 = _chunks([_pack_out((x["w_rdy"], x["r_rdy"], x["r_data"], x["level"], x["w_level"], x["r_level"]), w)
+                      for x in m[:cycles]], w + 7, _per_chunk(w)) + [0]
     if obs2 == model2:
         return c, obs, model
     return c2, obs2, model2
@@ -332,7 +538,8 @@ def shrink(c, obs, model):
 # ------------------------------------------------------------------------------------------ coverage of the walks
 def extra(tier, seed, findings):
     import common as C
-    walks = [dict(c, stats=1) for c in gen_cases(tier, seed) if c.get("g") == "walk"]
+    walks = [dict(c, stats=1) for c in gen_cases(tier, seed) if c.get("g") in ("walk", "big")]
+    bfs = _CACHE[(tier, seed)][1]
     res = C.run_impl_parallel(__name__, walks, chunk=16)
     tot = {k: collections.Counter() for k in KINDS}
     per_depth = {}
@@ -352,6 +559,8 @@ def extra(tier, seed, findings):
                 pd[k] += s[k]
                 tot[c["k"]][k] += s[k]
         ring = c["d"] if c["k"] == "sync" else c["d"] - 1      # rows of the storage memory
+        if c["g"] == "walk" and c.get("rs") and s["resets_nonempty"] == 0 and c["d"] > 0:
+            gaps.append(f"{c['k']} w={c['w']} d={c['d']}: reset never hit a non-empty queue")
         if c["d"] > 0 and (s["full"] == 0 or s["empty"] == 0 or (ring > 0 and s["wraps"] == 0)
                            or s["max_level"] != c["d"]):
             gaps.append(f"{c['k']} w={c['w']} d={c['d']}: full={s['full']} empty={s['empty']} wraps={s['wraps']}")
@@ -362,5 +571,14 @@ def extra(tier, seed, findings):
                                   for k, v in sorted(per_depth.items())},
         "walks": len(walks),
         "walks_missing_full_empty_or_wrap": gaps,
+        "bfs": bfs,
+        "bfs_all_closed": all(v.get("closed") for v in bfs.values()),
     }
-    return [], cov
+    viol = []
+    for key, v in bfs.items():
+        if not v.get("closed"):
+            # the implementation's state graph did not close (or its internals could not be read): the exhaustive
+            # exploration the property asks for is not available -> a broken obligation of this check
+            viol.append({"property": ID, "kind": "obligation",
+                         "obligation": [f"state graph of {key} not explored to closure: {v}"]})
+    return viol, cov
